@@ -116,6 +116,14 @@ def simulate(program, deselected=None):
             if owner is not None and name in ("before_feature", "before_rule", "before_scenario"):
                 owner.skip_requested = True
             return False
+        if faults.get(k) == "skip_feature":
+            # an after_scenario hook skips the rest of its (partly executed) feature: the remaining scenarios
+            # and rules of that feature are excluded like deselected ones; elsewhere the fault kind does nothing
+            if name == "after_scenario":
+                for lay in layers:
+                    if lay.kind == "feature":
+                        ref.skipped_by_hook.add(("feature", lay.name))
+            return False
         if faults.get(k) == "abort":
             state["aborted"] = True
             ref.reasons.append("hook %s#%d aborted the run" % (name, k))
